@@ -11,7 +11,7 @@ Proof. intros H. pose proof (u32_at_app_exact e (enc e 4 x) v post H) as E. rewr
 Theorem serialize_data_size m a f :
   a_cstrs a = [] -> size a < 2 ^ 32 -> BinFormat.serialize m a = Ok f -> u32_at (a_endian a) f 4 = Some (size a).
 Proof.
-  intros Hc Hs. unfold BinFormat.serialize. rewrite Hc.
+  intros Hc Hs. unfold BinFormat.serialize, BinFormat.serialize_k. rewrite Hc.
   change (isort (fun x y : bytes * list N => bytes_leb (fst x) (fst y)) []) with (@nil (bytes * list N)).
   cbn [cstr_pool]. change (pad_to 4 (p_raw pool_empty)) with (@nil N). intros H.
   apply bind_Ok_inv in H. destruct H as (d1 & _ & H).
